@@ -440,7 +440,7 @@ func init() {
 	})
 	vc.Register(&vc.Check{
 		ID: "C19", Level: "exploration",
-		Rule: "complete upload sessions (0x1210, 0x1211, chunks, 0x1212, EOF) with the DEFAULT file handler on a virtual file system rooted at a sandbox directory, for announced names = ALL strings of length 1..6 over {a . /} (1092) and all strings of length 1..5 over {a . / \\} that contain a backslash, EVERY byte value 0..255 in five separator positions (..Xe, ..X..Xe, X../e, aX../../e, X), each short name also with a leading '/', with an embedded NUL, '../' repeated up to the 255-byte wire limit, 50-byte chunk-header names, names that resolve to existing files outside (../file.log), names that climb out into a sibling whose name begins with the terminal's own directory name (../<phone>1/x, ../<phone>.bak/z, ../<phone>_note), x 3 phones. " +
+		Rule: "complete upload sessions (0x1210, 0x1211, chunks, 0x1212, EOF) with the DEFAULT file handler on a virtual file system rooted at a sandbox directory, for announced names = ALL strings of length 1..6 over {a . /} (1092) and all strings of length 1..5 over {a . / \\} that contain a backslash, EVERY byte value 0..255 in five separator positions (..Xe, ..X..Xe, X../e, aX../../e, X), each short name also with a leading '/', with an embedded NUL, '../' repeated up to the 255-byte wire limit, 50-byte chunk-header names, names that resolve to existing files outside (../file.log), names that climb out into a sibling whose name begins with the terminal's own directory name (../<phone>1/x, ../<phone>.bak/z, ../<phone>_note), x 5 phones (one all zeros, one with leading zeros only). " +
 			"Every create/write target of the handler is logged by the vos shim (and carried out only inside the sandbox); it must lie under <root>/<phone>/ (the handler's own file.log excepted). Non-trivial = name contains '..' or '/'",
 		Assumptions: []string{"the os calls of attachment/file_event.go are routed to harness/vos by import rewriting (vgen); paths are resolved lexically (no symlinks in the sandbox)"},
 		Run:         c19Run,
@@ -899,7 +899,7 @@ func c19Run(ctx *vc.Ctx, rep *vc.Report) {
 	sort.Strings(names)
 	names = slices.Compact(names)
 	var idx int64
-	for _, phone := range []string{"13800138000", "1", "999999999999"} {
+	for _, phone := range []string{"13800138000", "1", "999999999999", "0", "000000000010"} {
 		// names that climb out and land on a sibling whose name starts with this terminal's own directory name
 		ph := ref.PhoneString(ref.BCD(phone, 6))
 		sib := []string{"../" + ph + "1/x.jpg", "../" + ph + ".bak/z.bin", "../" + ph + "_note", "../" + ph, "../" + ph + "/../" + ph + "x/y", "a/../../" + ph + "0/f"}
